@@ -1079,13 +1079,13 @@ SUBS = [
     # coverage-guided campaigns (Atheris / libFuzzer) over the same strategies and oracles: the combinator
     # library, the JSON grammar and the tag language are pure Python, so edge coverage is a usable gradient
     Sub("fz_terms", check_terms, custom=_fuzz.hyp_campaign(PROPERTY, "terms", ["insights.parsr"], runs_quick=150,
-                                                           runs_thorough=60000),
+                                                           runs_thorough=15000),
         workers_quick=1, workers_thorough=16, budget_quick=30, budget_thorough=900),
     Sub("fz_json", check_json, custom=_fuzz.hyp_campaign(PROPERTY, "json", ["insights.parsr", "insights.parsr.examples.json_parser"],
                                                          runs_quick=300, runs_thorough=150000),
         workers_quick=1, workers_thorough=16, budget_quick=30, budget_thorough=900),
     Sub("fz_taglang", check_taglang, custom=_fuzz.hyp_campaign(PROPERTY, "taglang", ["insights.parsr", "insights.core.taglang"],
-                                                               runs_quick=300, runs_thorough=150000),
+                                                               runs_quick=300, runs_thorough=60000),
         workers_quick=1, workers_thorough=16, budget_quick=30, budget_thorough=900),
 ]
 
